@@ -352,7 +352,10 @@ func Parse(block []rune, pos int) (pt ParsedTokens, syntaxHighlighted string) {
 			case pt.QuoteSingle, pt.QuoteDouble, pt.QuoteBrace > 0:
 				*pt.pop += ` `
 				syntaxHighlighted += string(block[i])
-			case i > 0 && (block[i-1] == '-' || block[i-1] == '='):
+			case i > 0 && (block[i-1] == '-' || block[i-1] == '=') &&
+				len(syntaxHighlighted) > 0 && rune(syntaxHighlighted[len(syntaxHighlighted)-1]) == block[i-1]:
+				// (an escaped `\-` or `\=` is followed by a colour reset, not by the character
+				// itself, and does not start a pipe token)
 				if pos != 0 && pt.Loc >= pos {
 					return
 				}
